@@ -406,6 +406,122 @@ static void gzip_reader(void)
 						}
 }
 
+/* long strings: FNAME / FCOMMENT longer than 64 KiB (RFC 1952 sets no limit), parsed in one call, with the input split at positions
+ * deep inside each string, and with a too-small caller buffer that is grown and the parse resumed there. All internal offsets that
+ * track the position inside a string must be wide enough; the recovered strings must be byte-identical. */
+static void long_strings(void)
+{
+	static const int nls[] = { 40, 65534, 65535, 65536, 70000 }, cls[] = { 20, 65535, 65537, 90000 };
+	static char *name, *comm;
+	static uint8_t *hb, *nbuf, *cbuf;
+	if (!name) {
+		name = malloc(100001); comm = malloc(100001);
+		hb = malloc(210000); nbuf = malloc(100001); cbuf = malloc(100001);
+	}
+	char key[300];
+	uint64_t unit = 555000;
+	for (int ni = 0; ni < 5; ni++)
+		for (int ci = 0; ci < 4; ci++) {
+			int nl = nls[ni], cl = cls[ci];
+			for (int i = 0; i < nl; i++) name[i] = (char)('A' + (i * 7 + i / 251) % 26);
+			name[nl] = 0;
+			for (int i = 0; i < cl; i++) comm[i] = (char)('a' + (i * 11 + i / 257) % 26);
+			comm[cl] = 0;
+			struct rh_gzip rh = { 0, 0x11223344, 2, 3, NULL, -1, name, comm, 1 };
+			size_t hl = rh_gzip_write(hb, &rh);
+			hb[hl] = 0x03; hb[hl + 1] = 0x00;
+			size_t total = hl + 2, nstart = 10, cstart = 10 + nl + 1;
+			/* resume points: inside the name and the comment, shallow and deeper than 64 KiB */
+			size_t pts[24];
+			int np = 0;
+			pts[np++] = 0; /* one call */
+			const size_t deep[] = { 5, 65530, 65535, 65536, 65537, 69000 };
+			for (int k = 0; k < 6; k++) {
+				if (deep[k] < (size_t)nl) pts[np++] = nstart + deep[k];
+				if (deep[k] < (size_t)cl) pts[np++] = cstart + deep[k];
+			}
+			for (int pi = 0; pi < np; pi++)
+				for (int how = 0; how < 2; how++) { /* 0: input split at the point; 1: caller buffer too small up to the point, then grown */
+					if (pi == 0 && how)
+						continue;
+					if (!v_mine(unit++))
+						continue;
+					if (nfail > 20 || v_deadline_hit())
+						return;
+					struct inflate_state *st = g_alloc(sizeof *st, G_END);
+					struct isal_gzip_header *h = g_alloc(sizeof *h, G_END);
+					memset(nbuf, 0xCC, 100001); memset(cbuf, 0xCC, 100001);
+					isal_inflate_init(st);
+					isal_gzip_header_init(h);
+					h->name = (char *)nbuf; h->comment = (char *)cbuf;
+					h->name_buf_len = nl + 1; h->comment_buf_len = cl + 1;
+					size_t split = pts[pi];
+					int in_name = split >= nstart && split < cstart;
+					if (how) { /* buffer holds exactly the bytes in front of the resume point */
+						if (in_name) h->name_buf_len = split - nstart; else h->comment_buf_len = split - cstart;
+					}
+					snprintf(key, sizeof key, "isal_read_gzip_header long strings name=%d comment=%d %s %zu bytes into the %s", nl, cl, pi == 0 ? "one call" : how ? "buffer overflow + resume" : "input split", pi == 0 ? 0 : in_name ? split - nstart : split - cstart,
+						 pi == 0 ? "header" : in_name ? "name" : "comment");
+					int ret = -999, calls = 0, bad = 0;
+					size_t ipos = 0;
+					if (V_TRY()) {
+						size_t k = (pi && !how) ? split : total;
+						uint8_t *in = g_alloc(k, G_END);
+						memcpy(in, hb, k);
+						st->next_in = in; st->avail_in = k;
+						for (;;) {
+							ret = isal_read_gzip_header(st, h);
+							calls++;
+							if (ret == ISAL_END_INPUT && st->avail_in == 0 && ipos + k < total) { /* second input piece */
+								ipos += k;
+								size_t k2 = total - ipos;
+								uint8_t *in2 = g_alloc(k2, G_END);
+								memcpy(in2, hb + ipos, k2);
+								st->next_in = in2; st->avail_in = k2;
+								k = k2;
+								continue;
+							}
+							if (ret == ISAL_NAME_OVERFLOW && how && in_name && h->name_buf_len < (uint32_t)nl + 1) { h->name_buf_len = nl + 1; continue; }
+							if (ret == ISAL_COMMENT_OVERFLOW && how && !in_name && h->comment_buf_len < (uint32_t)cl + 1) { h->comment_buf_len = cl + 1; continue; }
+							break;
+						}
+						ipos += k - st->avail_in;
+						V_END();
+					} else {
+						v_violation(key, "%s", v_fault_desc());
+						nfail++;
+						g_reset();
+						continue;
+					}
+					v_eval();
+					if (ret != ISAL_DECOMP_OK) {
+						v_violation(key, "returned %d after %d calls", ret, calls);
+						bad = 1;
+					} else if (ipos != hl) {
+						v_violation(key, "stopped at offset %zu, the compressed data starts at %zu", ipos, hl);
+						bad = 1;
+					} else if (memcmp(nbuf, name, nl + 1)) {
+						size_t i = 0;
+						while (nbuf[i] == (uint8_t)name[i]) i++;
+						v_violation(key, "name differs (first mismatch at byte %zu of %d)", i, nl);
+						bad = 1;
+					} else if (memcmp(cbuf, comm, cl + 1)) {
+						size_t i = 0;
+						while (cbuf[i] == (uint8_t)comm[i]) i++;
+						v_violation(key, "comment differs (first mismatch at byte %zu of %d)", i, cl);
+						bad = 1;
+					} else if (nbuf[nl + 1] != 0xCC || cbuf[cl + 1] != 0xCC) {
+						v_violation(key, "wrote behind the announced buffer length");
+						bad = 1;
+					}
+					nfail += bad;
+					g_reset();
+					v_count("long_string_headers", 1);
+					v_nontrivial(v_mix(0x1095 + ni * 4 + ci, pi * 2 + how));
+				}
+		}
+}
+
 /* zlib reader: all compositions of the header into chunks + RFC byte order of DICTID */
 static void zlib_reader(void)
 {
@@ -541,6 +657,7 @@ int main(int argc, char **argv)
 	}
 	if (!v_part || !strcmp(v_part, "reader")) {
 		gzip_reader();
+		long_strings();
 		if (v_shard == 0)
 			zlib_reader();
 		arbitrary();
